@@ -228,7 +228,7 @@ PROPS = {
         "streams": [{"stream": "c17", "n_quick": 30, "n_thorough": 1000, "timeout_quick": 900, "timeout_thorough": 6000},
                     # a moment of descriptor exhaustion at accept (corpus): Ready was true, Stop was not called, so a client that
                     # connects afterwards is served
-                    {"stream": "c07", "n_quick": 1, "n_thorough": 40, "timeout_quick": 900, "timeout_thorough": 6000},
+                    {"stream": "c07", "n_quick": 1, "n_thorough": 1, "timeout_quick": 900, "timeout_thorough": 6000},  # (not the whole fault list: the recorded C07 finding is C07's)
                     {"stream": "addr", "n_quick": 800, "n_thorough": 40000}],
         "trusted": RUNTIME_TRUST,
         "assumptions": ["partial: that a connection attempt to a bound, listening socket succeeds is the kernel's backlog behaviour, observed by the oracle"],
